@@ -15,6 +15,7 @@ import (
 	"unicode/utf8"
 
 	commonpb "go.temporal.io/api/common/v1"
+	failurepb "go.temporal.io/api/failure/v1"
 	historypb "go.temporal.io/api/history/v1"
 	"go.temporal.io/server/common/log"
 	"google.golang.org/protobuf/proto"
@@ -179,32 +180,53 @@ func TestVerifC17Blob(t *testing.T) {
 				}
 			}
 		}
-		// invalid UTF-8 in a string that is not a failure message: must be reported, blob untouched
-		bad := &historypb.History{Events: []*historypb.HistoryEvent{{EventId: 1, EventType: 10, Attributes: &historypb.HistoryEvent_ActivityTaskScheduledEventAttributes{
-			ActivityTaskScheduledEventAttributes: &historypb.ActivityTaskScheduledEventAttributes{ActivityId: "ACT~ID"}}}}}
-		data, _ := proto.Marshal(bad)
-		data = bytes.Replace(data, []byte("ACT~ID"), []byte("ACT\xffID"), 1)
-		msg := vrt.BuildForPath(j.root.MD, j.path, vrt.BuildOpts{Decorate: vrt.DecorateEvent, SetLeaf: func(m protoreflect.Message, leaf protoreflect.FieldDescriptor) {
-			b := &commonpb.DataBlob{EncodingType: 1, Data: data}
-			if leaf.IsList() {
-				m.Mutable(leaf).List().Append(protoreflect.ValueOfMessage(b.ProtoReflect()))
-			} else {
-				m.Set(leaf, protoreflect.ValueOfMessage(b.ProtoReflect()))
+		// invalid UTF-8 the repair cannot fix - in a string that is not a failure message, alone or next to a failure
+		// message that can be repaired, or in a failure chain beyond the supported depth: must be reported, blob untouched
+		scheduled := &historypb.HistoryEvent{EventId: 1, EventType: 10, Attributes: &historypb.HistoryEvent_ActivityTaskScheduledEventAttributes{
+			ActivityTaskScheduledEventAttributes: &historypb.ActivityTaskScheduledEventAttributes{ActivityId: "ACT~ID"}}}
+		failed := func(depth int) *historypb.HistoryEvent {
+			f := &failurepb.Failure{Message: "FAIL~MSG"}
+			for k := 1; k < depth; k++ {
+				f = &failurepb.Failure{Message: "FAIL~MSG", Cause: f}
 			}
-		}})
-		before := proto.Clone(msg)
-		var err error
-		if j.root.Response {
-			_, err = nsTr.TranslateResponse(msg)
-		} else {
-			_, err = nsTr.TranslateRequest(msg)
+			return &historypb.HistoryEvent{EventId: 2, EventType: 12, Attributes: &historypb.HistoryEvent_ActivityTaskFailedEventAttributes{
+				ActivityTaskFailedEventAttributes: &historypb.ActivityTaskFailedEventAttributes{Failure: f}}}
 		}
-		atomic.AddInt64(&evals, 1)
-		atomic.AddInt64(&refused, 1)
-		if err == nil {
-			res.Violate("blob-repair/unfixable-blob-not-reported/"+string(j.path.Leaf().FullName()), fmt.Sprintf("%s blob %s with invalid UTF-8 in activity_id: the translator reports no error", j.root, j.path), map[string]any{"root": j.root.String(), "blob_path": j.path.String()})
-		} else if !proto.Equal(before, msg) {
-			res.Violate("blob-repair/unfixable-blob-changed/"+string(j.path.Leaf().FullName()), fmt.Sprintf("%s blob %s: error reported (%v) but the message was changed", j.root, j.path, err), map[string]any{"root": j.root.String(), "blob_path": j.path.String()})
+		for _, uc := range []struct {
+			name   string
+			events []*historypb.HistoryEvent
+		}{
+			{"invalid-activity-id", []*historypb.HistoryEvent{scheduled}},
+			{"invalid-activity-id-after-repairable-failure", []*historypb.HistoryEvent{failed(1), scheduled}},
+			{"invalid-activity-id-before-repairable-failure", []*historypb.HistoryEvent{scheduled, failed(2)}},
+			{"failure-chain-of-40-invalid-messages", []*historypb.HistoryEvent{failed(40)}},
+		} {
+			data, _ := proto.Marshal(&historypb.History{Events: uc.events})
+			data = bytes.ReplaceAll(data, []byte("ACT~ID"), []byte("ACT\xffID"))
+			data = bytes.ReplaceAll(data, []byte("FAIL~MSG"), []byte("FAIL\xffMSG"))
+			msg := vrt.BuildForPath(j.root.MD, j.path, vrt.BuildOpts{Decorate: vrt.DecorateEvent, SetLeaf: func(m protoreflect.Message, leaf protoreflect.FieldDescriptor) {
+				b := &commonpb.DataBlob{EncodingType: 1, Data: data}
+				if leaf.IsList() {
+					m.Mutable(leaf).List().Append(protoreflect.ValueOfMessage(b.ProtoReflect()))
+				} else {
+					m.Set(leaf, protoreflect.ValueOfMessage(b.ProtoReflect()))
+				}
+			}})
+			before := proto.Clone(msg)
+			var err error
+			if j.root.Response {
+				_, err = nsTr.TranslateResponse(msg)
+			} else {
+				_, err = nsTr.TranslateRequest(msg)
+			}
+			atomic.AddInt64(&evals, 1)
+			atomic.AddInt64(&refused, 1)
+			rp := map[string]any{"root": j.root.String(), "blob_path": j.path.String(), "case": uc.name}
+			if err == nil {
+				res.Violate("blob-repair/unfixable-blob-not-reported/"+uc.name+"/"+string(j.path.Leaf().FullName()), fmt.Sprintf("%s blob %s, %s: the translator reports no error", j.root, j.path, uc.name), rp)
+			} else if !proto.Equal(before, msg) {
+				res.Violate("blob-repair/unfixable-blob-changed/"+uc.name+"/"+string(j.path.Leaf().FullName()), fmt.Sprintf("%s blob %s, %s: error reported (%v) but the message was changed", j.root, j.path, uc.name, err), rp)
+			}
 		}
 	})
 	res.Set("evaluations", evals)
@@ -214,7 +236,7 @@ func TestVerifC17Blob(t *testing.T) {
 	res.Set("blob_field_paths", int64(len(jobs)))
 	res.Set("failure_paths_in_history", int64(len(failurePaths)))
 	res.Set("failure_paths_unknown_to_legacy_schema_skipped", unknownLegacy)
-	res.Set("rule", "history-blob path: every path to an event-bearing DataBlob field (single and repeated) in every root type x every failure path inside a History (chain length 1, and on every 4th path also 3) x {nothing else in the blob, an unmapped namespace, a mapped namespace} through the namespace translator: the blob handed on decodes and equals the legacy-restricted history with sanitised failure messages; a blob with invalid UTF-8 in another string makes the translator return an error and leaves the message unchanged")
+	res.Set("rule", "history-blob path: every path to an event-bearing DataBlob field (single and repeated) in every root type x every failure path inside a History (chain length 1, and on every 4th path also 3) x {nothing else in the blob, an unmapped namespace, a mapped namespace} through the namespace translator: the blob handed on decodes and equals the legacy-restricted history with sanitised failure messages; a blob with invalid UTF-8 the repair cannot fix (another string field, alone or before/after a repairable failure message; a chain of 40 invalid failure messages) makes the translator return an error and leaves the message unchanged")
 	res.Sample(map[string]any{"root": jobs[0].root.String(), "blob_path": jobs[0].path.String(), "failure_path": failurePaths[0].String()})
 }
 
